@@ -69,7 +69,7 @@ func (area) Requires() string {
 }
 func (area) Check() string { return "check_case" }
 func (area) Rule() string {
-	return "histories of 40-100 calls (thorough: up to 300) on a tree of <=10 directories below a fresh root, names from {a,A,b,B,c,C,d,.h,.H,.hx} (.h* hidden), case-insensitive normaliser in every second history; calls: VirtualLookup/OpenChild/Mkdir/Mknod/Link/Remove/Rename/ReadDir (pages of 1-4, resumed from the last, an earlier or an arbitrary cookie), LookupChild, LookupAllChildren, ReadDir, Remove, RemoveAll, RemoveAllChildren, CreateChildren, CreateAndEnterPrepopulatedDirectory, FilterChildren, InstallHooks; allocator failures injected in 5% of creations; every history ends with a full listing of every directory; non-trivial = at least one successful rename that replaced an entry or crossed directories, one successful removal, and one multi-page listing read to its end; distinct by hash of the full case term"
+	return "histories of 40-100 calls (thorough: up to 300) on a tree of <=10 directories below a fresh root, names from {a,A,b,B,c,C,d,.h,.H,.hx} (.h* hidden), case-insensitive normaliser in every second history; calls: VirtualLookup/OpenChild/Mkdir/Mknod/Link/Remove/Rename/ReadDir (pages of 1-4, resumed from the last, an earlier or an arbitrary cookie), LookupChild, LookupAllChildren, ReadDir, Remove, RemoveAll, RemoveAllChildren, CreateChildren, CreateAndEnterPrepopulatedDirectory, FilterChildren, InstallHooks; 3% of the calls are a VirtualReadDir racing with a rename/mknod/unlink in the same directory while a parked VirtualOpenChild holds the lock of a child directory (the listing drops its lock and re-seeks; recorded as the two pages it must be equivalent to); allocator failures injected in 5% of creations; every history ends with a full listing of every directory; non-trivial = at least one successful rename that replaced an entry or crossed directories, one successful removal, and one multi-page listing read to its end; distinct by hash of the full case term"
 }
 
 func (area) Generate(r *rng.R, thorough bool, index int) json.RawMessage {
@@ -177,6 +177,9 @@ func (area) Generate(r *rng.R, thorough bool, index int) json.RawMessage {
 			o.K = "installhooks"
 			o.T = 1 + r.Intn(3)
 		}
+		if r.Chance(3) {
+			o = hop{K: "race", D: r.Intn(nd), N: name(), D2: r.Intn(nd), L: r.Intn(8), M: r.Intn(3), P: 1 + r.Intn(6)}
+		}
 		h.Ops = append(h.Ops, o)
 	}
 	data, _ := json.Marshal(h)
@@ -192,6 +195,16 @@ type world struct {
 	leaves   []*fakeLeaf
 	failNext bool
 	logged   int
+
+	// race support: the next NewFile parks (holding the lock of the directory
+	// it creates the file in) until released; GetAttributes of directory
+	// watchDir signals that VirtualReadDir is about to lock it.
+	parkNext bool
+	parked   chan struct{}
+	release  chan struct{}
+	watchDir int
+	reached  chan int
+	rows     func() int
 }
 
 const (
@@ -293,6 +306,11 @@ func (a *fileAllocator) NewFile(holeSource pool.HoleSource, isExecutable bool, s
 		a.w.failNext = false
 		return nil, errors.New("injected allocation failure")
 	}
+	if a.w.parkNext {
+		a.w.parkNext = false
+		a.w.parked <- struct{}{}
+		<-a.w.release
+	}
 	return a.w.newLeaf(kFile, a.tag), nil
 }
 
@@ -359,6 +377,11 @@ func (h *handleAllocation) AsStatefulDirectory(directory virtual.Directory) virt
 }
 func (h *dirHandle) GetAttributes(requested virtual.AttributesMask, attributes *virtual.Attributes) {
 	attributes.SetInodeNumber(uint64(h.id))
+	if w := h.w; w.watchDir == h.id && w.reached != nil {
+		ch := w.reached
+		w.reached = nil
+		ch <- w.rows()
+	}
 }
 func (h *dirHandle) NotifyRemoval(name path.Component) {}
 func (h *dirHandle) Release()                          { h.w.released[h.id]++ }
@@ -486,7 +509,7 @@ func call(f func()) (status string) {
 	select {
 	case s := <-done:
 		return s
-	case <-time.After(5 * time.Second):
+	case <-time.After(30 * time.Second):
 		return "SHang"
 	}
 }
@@ -498,7 +521,7 @@ func (area) Execute(raw json.RawMessage) (term string, info *hcommon.Info, err e
 	}
 	info = hcommon.NewInfo()
 	ctx := context.Background()
-	w := &world{dirID: map[virtual.Directory]int{}}
+	w := &world{dirID: map[virtual.Directory]int{}, watchDir: -1}
 	normalizer := virtual.CaseSensitiveComponentNormalizer
 	if h.CI {
 		normalizer = virtual.CaseInsensitiveComponentNormalizer
@@ -522,6 +545,8 @@ func (area) Execute(raw json.RawMessage) (term string, info *hcommon.Info, err e
 	pagesInSession := map[int]int{}
 
 	// observe appends the observation that follows a call.
+	busy := -1                     // directory whose lock a parked call holds on purpose
+	lastChange := map[int]uint64{} // change counters as last read
 	observe := func(opTerm, method string, r *result) {
 		ops = append(ops, opTerm)
 		info.Events++
@@ -530,18 +555,21 @@ func (area) Execute(raw json.RawMessage) (term string, info *hcommon.Info, err e
 		leak := ""
 		free := make([]bool, len(w.dirs))
 		for i, d := range w.dirs {
-			free[i] = virtual.VerifLockIsFree(d)
-			if !free[i] {
+			free[i] = i != busy && virtual.VerifLockIsFree(d)
+			if !free[i] && i != busy {
 				leak = method
 			}
 		}
 		var ds, ls []string
 		for i, d := range w.dirs {
-			changeID := uint64(0)
+			changeID := lastChange[i] // a directory locked on purpose cannot have changed
 			if free[i] {
 				var attributes virtual.Attributes
 				d.VirtualGetAttributes(ctx, virtual.AttributesMaskChangeID, &attributes)
 				changeID = attributes.GetChangeID()
+				lastChange[i] = changeID
+			} else if i != busy {
+				changeID = 0
 			}
 			ds = append(ds, "("+g.N(changeID)+", "+g.Bool(w.released[i] > 0)+")")
 			if w.released[i] > 1 {
@@ -839,6 +867,181 @@ func (area) Execute(raw json.RawMessage) (term string, info *hcommon.Info, err e
 					longListings++
 				}
 			}
+
+		case "race":
+			// VirtualReadDir of d racing with a mutation of d: a parked
+			// VirtualOpenChild holds the lock of a child directory y, so the
+			// listing has to drop d's lock when it reaches y; the mutation
+			// runs in that window; then the parked call is released.  The
+			// single listing is recorded as the two pages it must be
+			// equivalent to: before y / from y on, with the mutation and the
+			// parked call in between.
+			full := readdirPage(d, 0, 1000)
+			if stopped || full.status != "SOK" {
+				break
+			}
+			var ys []int
+			ynames := map[int]string{}
+			for _, e := range full.entries {
+				var id int
+				if n, _ := fmt.Sscanf(e.child, "(CDir %d)", &id); n == 1 && id != d {
+					ys = append(ys, id)
+					ynames[id] = e.name
+				}
+			}
+			if len(ys) == 0 {
+				break
+			}
+			y := ys[o.L%len(ys)]
+			page := o.P
+			if page < 1 {
+				page = 1
+			}
+			// 1. park a file creation inside y (y's lock stays held)
+			w.parkNext, w.parked, w.release = true, make(chan struct{}, 1), make(chan struct{})
+			fileName := "zz"
+			g1 := newResult()
+			g1done := make(chan string, 1)
+			go func() {
+				g1done <- call(func() {
+					var attributes virtual.Attributes
+					createAttributes := (&virtual.Attributes{}).SetPermissions(virtual.PermissionsRead)
+					leaf, _, ci, s := w.dirs[y].VirtualOpenChild(ctx, path.MustNewComponent(fileName), virtual.ShareMaskRead, createAttributes, nil, attrMask, &attributes)
+					g1.status = statusName(s)
+					if s == virtual.StatusOK {
+						fl := leaf.(*fakeLeaf)
+						g1.child, g1.attr, g1.tag = cleaf(fl.id), int64(int32(attributes.GetLinkCount())), fl.tag
+						g1.ci = [][2]uint64{{ci.Before, ci.After}}
+					}
+				})
+			}()
+			finishG1 := func() {
+				if s := <-g1done; s != "" {
+					*g1 = *newResult()
+					g1.status = s
+				}
+				observe(g.App("OVOpen", fmt.Sprint(y), g.Str(fileName), "true", "false", "false"), "VirtualOpenChild", g1)
+			}
+			select {
+			case <-w.parked:
+			case s := <-g1done:
+				// not parked: the name exists or y is removed; nothing to race with
+				w.parkNext = false
+				g1done <- s
+				finishG1()
+				continue
+			}
+			busy = y
+			// 2. start the listing; it signals when it is about to lock y
+			rep := &pageReporter{w: w, max: page}
+			reached := make(chan int, 1)
+			w.watchDir, w.reached, w.rows = y, reached, func() int { return len(rep.rows) }
+			g2 := newResult()
+			g2done := make(chan string, 1)
+			go func() {
+				g2done <- call(func() {
+					s := w.dirs[d].VirtualReadDir(ctx, 0, attrMask, rep)
+					g2.status = statusName(s)
+				})
+			}()
+			k := -1
+			select {
+			case k = <-reached:
+				// wait until the listing has let go of d
+				for i := 0; i < 200000 && !virtual.VerifLockIsFree(w.dirs[d]); i++ {
+					time.Sleep(10 * time.Microsecond)
+				}
+			case s := <-g2done:
+				g2done <- s // the page ended before y
+			}
+			w.watchDir, w.reached = -1, nil
+			if k >= 0 {
+				info.Outs["race:listing-dropped-lock"]++
+				// first half of the listing
+				r1 := newResult()
+				r1.entries = append([]rentry(nil), rep.rows[:k]...)
+				observe(g.App("OVReadDir", fmt.Sprint(d), g.N(0), fmt.Sprint(k)), "VirtualReadDir", r1)
+				// 3. the mutation
+				mr := newResult()
+				mut := o.M % 3
+				if mut == 2 && norm(name) == norm(ynames[y]) {
+					mut = 1 // unlinking y's name would need y's lock
+				}
+				switch mut {
+				case 0: // move y (within d, or to a directory that is not below y)
+					d2 := o.D2 % len(w.dirs)
+					for a, n := d2, 0; n <= len(w.dirs); n++ {
+						if a == y {
+							d2 = d
+							break
+						}
+						p, ok := parent[a]
+						if !ok {
+							break
+						}
+						a = p
+					}
+					newName := "moved"
+					run(mr, func() {
+						ci1, ci2, s := w.dirs[d].VirtualRename(ctx, path.MustNewComponent(ynames[y]), w.dirs[d2], path.MustNewComponent(newName))
+						mr.status = statusName(s)
+						if s == virtual.StatusOK {
+							mr.ci = [][2]uint64{{ci1.Before, ci1.After}, {ci2.Before, ci2.After}}
+							parent[y] = d2
+							info.Outs["race:listed-entry-detached"]++
+						}
+					})
+					observe(g.App("OVRename", fmt.Sprint(d), g.Str(ynames[y]), fmt.Sprint(d2), g.Str(newName)), "VirtualRename", mr)
+				case 1: // add an entry to d
+					newName := "added"
+					run(mr, func() {
+						var attributes virtual.Attributes
+						createAttributes := (&virtual.Attributes{}).SetFileType(filesystem.FileTypeFIFO)
+						leaf, ci, s := w.dirs[d].VirtualMknod(ctx, path.MustNewComponent(newName), createAttributes, attrMask, &attributes)
+						mr.status = statusName(s)
+						if s == virtual.StatusOK {
+							fl := leaf.(*fakeLeaf)
+							mr.child, mr.attr, mr.tag = cleaf(fl.id), int64(int32(attributes.GetLinkCount())), fl.tag
+							mr.ci = [][2]uint64{{ci.Before, ci.After}}
+						}
+					})
+					observe(g.App("OVMknod", fmt.Sprint(d), g.Str(newName), "MFifo", "false"), "VirtualMknod", mr)
+				default: // unlink a file of d
+					run(mr, func() {
+						ci, s := w.dirs[d].VirtualRemove(ctx, comp, false, true)
+						mr.status = statusName(s)
+						if s == virtual.StatusOK {
+							mr.ci = [][2]uint64{{ci.Before, ci.After}}
+						}
+					})
+					observe(g.App("OVRemove", fmt.Sprint(d), g.Str(name), "false", "true"), "VirtualRemove", mr)
+				}
+			}
+			// 4. let the parked creation finish, then the listing; both are
+			// over before anything is observed again
+			close(w.release)
+			s1 := <-g1done
+			s2 := <-g2done
+			busy = -1
+			g1done <- s1
+			finishG1()
+			if s2 != "" {
+				*g2 = *newResult()
+				g2.status = s2
+			}
+			if k < 0 {
+				g2.entries = rep.rows
+				observe(g.App("OVReadDir", fmt.Sprint(d), g.N(0), fmt.Sprint(page)), "VirtualReadDir", g2)
+			} else {
+				g2.entries = append([]rentry(nil), rep.rows[k:]...)
+				c2 := uint64(0)
+				if k > 0 {
+					c2 = rep.rows[k-1].cookie
+				}
+				observe(g.App("OVReadDir", fmt.Sprint(d), g.N(c2), fmt.Sprint(page-k)), "VirtualReadDir", g2)
+			}
+			lastCookies[d] = nil
+			pagesInSession[d] = -1000
 
 		case "lookupchild":
 			run(r, func() {
